@@ -4,9 +4,10 @@ CONSTANTS
  MaxQ = 23
  MaxK = 7
  Margin = 4
- Variants <- V_small
- NaiveMaxP = 13
+ Variants <- N_com1
+ NaiveMaxP = 0
  Mode = "nbr"
- CheckArith = TRUE
+ CheckArith = FALSE
+ SortedBases = FALSE
 INVARIANTS BlockIsDefinition Sound Complete Shape Elements Emit
 CHECK_DEADLOCK FALSE
